@@ -54,6 +54,9 @@ type expect struct {
 	ATAudAsSet bool     `json:"access_token_audience_judged_as_set,omitempty"`
 	RegAud     []string `json:"audience_registered_by_storage,omitempty"`
 	IDOnly     bool     `json:"id_token_is_the_issued_token,omitempty"` // token exchange with requested id_token
+	// Overlapped: the request was served while another request (of another client) was in flight on the same provider
+	// (overlap.go); the storage journal of its time window then also holds the other request's calls.
+	Overlapped bool `json:"overlapped_by_another_request,omitempty"`
 }
 
 type finding struct {
@@ -452,6 +455,9 @@ func (j *judge) userinfoCalls(idScopes []string, userinfoOff bool) {
 	var fromScopes, fromRequest []string
 	var nScopes, nRequest int
 	for _, en := range e.w.Store.JournalSince(j.t.Seq) {
+		if j.x.Overlapped && en.B != j.x.Client {
+			continue // a call of the overlapping request (both methods journal the client as B)
+		}
 		switch en.Method {
 		case "SetUserinfoFromScopes":
 			nScopes++
@@ -720,14 +726,50 @@ func (j *judge) accessToken(access string) {
 		}
 		run.Observed("jwt_access:" + e.d.Router)
 	} else {
-		plain, err := e.w.Provider.Crypto().Decrypt(access)
+		// "decrypt (with the provider key only)": the provider key is the CryptoKey the application configured this
+		// provider with when it built it - decrypted here with a crypto of our own over that key, not through the provider
+		if e.d.CfgReuse != "" {
+			who := "main"
+			if e.d.Tenant != "" {
+				who = e.d.Tenant
+			}
+			run.Count("shared_config", e.d.CfgReuse+"/"+who+"/opaque_token_judged")
+			run.Observed("shared_config:" + e.d.CfgReuse + ":" + who + ":opaque:" + e.d.Router)
+		}
+		own := op.NewAESCrypto(e.cryptoKey)
+		plain, err := own.Decrypt(access)
 		parts := strings.Split(plain, ":")
-		if err != nil || len(parts) != 2 {
-			j.fail("opaque:decrypt", "opaque access token does not decrypt under the provider key to <id>:<subject> (err=%v, plain=%q)", err, plain)
-			return
+		// readsKnown: the plaintext p has the form <id>:<subject> and names a token the storage created
+		readsKnown := func(p string, perr error) bool {
+			ps := strings.Split(p, ":")
+			if perr != nil || len(ps) != 2 {
+				return false
+			}
+			_, known := st.TokenRecord(ps[0])
+			return known
+		}
+		if !readsKnown(plain, err) {
+			// not "<stored id>:<subject>" under the provider key. Does another key open it (then it was sealed with that key)?
+			viaProvider, perr := e.w.Provider.Crypto().Decrypt(access)
+			sealedElsewhere := readsKnown(viaProvider, perr)
+			for name, c := range e.foreignKeys() {
+				if fp, ferr := c.Decrypt(access); readsKnown(fp, ferr) {
+					sealedElsewhere = true
+					j.fail("opaque:decrypts-under-foreign-key"+e.cfgClass(), "opaque access token decrypts to %q under %s", fp, name)
+				}
+			}
+			if sealedElsewhere || err != nil || len(parts) != 2 {
+				j.fail("opaque:decrypt"+e.cfgClass(), "opaque access token does not decrypt under the provider key (the CryptoKey %x... this provider was built with) to <stored token id>:<subject> (err=%v, plain=%q); Provider.Crypto() reads it as %q (err=%v); config variable: %s",
+					e.cryptoKey[:4], err, plain, viaProvider, perr, e.cfgNote())
+				return
+			}
 		}
 		tokenID = parts[0]
 		j.dec["access_token_plain"] = plain
+		// the library's own reader (what userinfo / introspection use) must read the same
+		if viaProvider, perr := e.w.Provider.Crypto().Decrypt(access); perr != nil || viaProvider != plain {
+			j.fail("opaque:provider-reads-differently"+e.cfgClass(), "Provider.Crypto().Decrypt reads the issued opaque token as %q (err=%v), under the provider key it is %q; config variable: %s", viaProvider, perr, plain, e.cfgNote())
+		}
 		rec, ok := st.TokenRecord(tokenID)
 		if !ok {
 			j.fail("opaque:token-id", "opaque access token decrypts to %q whose id is not a token vstore created", plain)
@@ -737,12 +779,15 @@ func (j *judge) accessToken(access string) {
 		if parts[1] != x.Subject {
 			j.fail("opaque:subject", "opaque access token decrypts to subject %q, the underlying request's subject is %q", parts[1], x.Subject)
 		}
-		// under the key of another world it must not yield the same plaintext
-		op2, err2 := e.other.Decrypt(access)
-		if err2 == nil && (op2 == plain || strings.HasPrefix(op2, tokenID+":")) {
-			j.fail("opaque:decrypts-under-foreign-key", "opaque access token decrypts to %q under a different crypto key", op2)
-		} else {
-			run.Count("opaque", "garbage_under_foreign_key")
+		// under any other key (an unrelated provider's, the other tenant's, the one standing in the application's config
+		// variable now) it must not yield the same plaintext
+		for name, c := range e.foreignKeys() {
+			op2, err2 := c.Decrypt(access)
+			if err2 == nil && (op2 == plain || strings.HasPrefix(op2, tokenID+":")) {
+				j.fail("opaque:decrypts-under-foreign-key"+e.cfgClass(), "opaque access token decrypts to %q under %s", op2, name)
+			} else {
+				run.Count("opaque", "garbage_under_foreign_key")
+			}
 		}
 		run.Observed("opaque_access:" + e.d.Router)
 	}
@@ -787,6 +832,22 @@ func (j *judge) accessToken(access string) {
 			run.Count("tokens", "refresh_token_ok")
 		}
 	}
+}
+
+// cfgClass is the suffix of the violation classes that concern the provider key: it names the stratum in which the
+// application reuses / rewrites its config variable ("" for a config value per provider).
+func (e *env) cfgClass() string {
+	if e.d.CfgReuse == "" {
+		return ""
+	}
+	return ":config-variable-" + strings.TrimPrefix(e.d.CfgReuse, "shared:")
+}
+
+func (e *env) cfgNote() string {
+	if e.cfgPtr == nil {
+		return "a value of its own per provider"
+	}
+	return fmt.Sprintf("%s, tenant %q; CryptoKey standing in the variable now %x..., this provider was built while it held %x...", e.d.CfgReuse, e.d.Tenant, e.cfgPtr.CryptoKey[:4], e.cryptoKey[:4])
 }
 
 // audAsSet judges the audience of a JWT access token of a flow whose request object the library composes itself
